@@ -580,6 +580,23 @@ pub fn video_frame(cfg: &CfgGene, g: &VGene, idx: usize, first: bool, fc: &mut F
 pub fn audio_frame(cfg: &CfgGene, g: &AGene, idx: usize) -> (Vec<u8>, Vec<u8>) {
     let tag = atag(idx, g.size);
     let size = g.size.max(1);
+    if cfg.audio % 8 == 7 && g.size % 32 == 7 {
+        // what an Ogg demuxer hands out first: the OpusHead / OpusTags header packets (whether the library takes them as
+        // audio packets is its decision; if it accepts one, the sample is the packet)
+        let p: Vec<u8> = if g.shape & 1 == 0 {
+            let mut v = b"OpusHead".to_vec();
+            v.extend_from_slice(&[1, 2, 0x38, 0x01, 0x80, 0xbb, 0x00, 0x00, 0x00, 0x00, 0x00]);
+            v
+        } else {
+            let mut v = b"OpusTags".to_vec();
+            v.extend_from_slice(&[7, 0, 0, 0]);
+            v.extend_from_slice(b"harness");
+            v.extend_from_slice(&[0, 0, 0, 0]);
+            v.extend_from_slice(&filler(40 + (idx % 5) as usize, tag, 0));
+            v
+        };
+        return (p.clone(), p);
+    }
     if cfg.audio % 8 == 7 {
         let code = g.shape & 3;
         let og = OpusGene {
